@@ -688,7 +688,12 @@ def rule_context_fresh(rep: Report, tz) -> None:
 				continue
 			direct = isinstance(c_.func, ast.Attribute) and c_.func.attr in takers and isinstance(c_.func.value, ast.Name) and c_.func.value.id == 'self'
 			# dispatch through the handler table: `handler = self._handlers[domain]; handler(context, tokens, index)`
-			via_table = isinstance(c_.func, ast.Name) and any(isinstance(getattr(d_, 'value', None), ast.Subscript) and unparse(d_.value.value).startswith('self.') for d_ in (may_reach(f.node, c_.func) or []))
+			def _from_table(v: ast.AST | None) -> bool:
+				# `self._handlers[domain]` or `self._handlers.get(domain)`
+				if isinstance(v, ast.Subscript):
+					return unparse(v.value).startswith('self.')
+				return isinstance(v, ast.Call) and isinstance(v.func, ast.Attribute) and v.func.attr == 'get' and unparse(v.func.value).startswith('self.')
+			via_table = isinstance(c_.func, ast.Name) and any(_from_table(getattr(d_, 'value', None)) for d_ in (may_reach(f.node, c_.func) or []))
 			if not direct and not via_table:
 				continue
 			first_ctx = [t for t in sorted(takers) if len(tcls.method(t).node.args.args) > 1 and tcls.method(t).node.args.args[1].annotation is not None and unparse(tcls.method(t).node.args.args[1].annotation).strip("'").endswith('Context')]
